@@ -16,6 +16,17 @@ CHECKS = {
         note="Trusted: the transcription of grammar.ebnf into HmsLex.tla, TLC, the JSON bridge. Inputs longer than "
              "the bounds are covered only through the recorded real files.",
         design="5/C06"),
+    "C07": dict(
+        technique="TLA+ operator-precedence machine (HmsExpr, shunting-yard) model-checked with TLC; every terminal "
+                  "state rendered in several layouts and replayed on the real parser",
+        text="TLC runs a shunting-yard parser driven by the property's operator table on all operator pairs, "
+             "operator triples and prefix/postfix decorations, checks YieldPreserved / NoLooserChild in every state "
+             "and exports (item sequence, tree). Each is rendered with spaces, newlines, comments, no spaces, "
+             "parenthesised atoms, inside lists / call arguments with trailing commas and as seeded compositions; "
+             "the real parser's tree (spans dropped) must equal the expected tree in every layout.",
+        note="Trusted: the transcription of the operator table into HmsExpr.tla, the harness' renderer and tree "
+             "normaliser. The range operator `..` is outside the property's table and not generated.",
+        design="5/C07"),
 }
 
 NOT_YET = {}
